@@ -8,6 +8,7 @@ OBLIGATIONS = [
     "Pkgcore.C10.compile_equiv_partial",
     "Pkgcore.C10.compile_equiv_counterexample",
     "Pkgcore.C10.domains_correct",
+    "Pkgcore.C10.forced_outside_iuse_ignored",
     "Pkgcore.C10.solutions_sound",
     "Pkgcore.C10.solutions_complete",
     "Pkgcore.C10.solutions_nodup",
@@ -24,8 +25,12 @@ ASSUMPTIONS = [
     "groups are non-empty and not negated, as the parser builds them",
 ]
 RULE = ("random REQUIRED_USE strings (||, ^^, ??, all-of, conditionals, negated conditionals and literals, depth <= 3) over up to 5 flags, parsed by "
-        "the real DepSet.parse; every IUSE subset for <= 3 flags (random subsets above), random forced/preferred sets; satisfying sets enumerated "
-        "by brute force with the specification; non-trivial = the constraint has a choice group or a conditional and at least two variables")
+        "the real DepSet.parse; every IUSE subset for <= 3 flags (random subsets above), random forced/preferred sets drawn from the mentioned "
+        "flags and two unmentioned ones whether or not they are in IUSE (0 .. all flags forced, so that whole rules are pinned; handed over as "
+        "set/frozenset/tuple/list); satisfying sets enumerated by brute force with the specification; then *sessions* in one process: the same "
+        "and related queries started again after a full enumeration, while earlier result iterators are suspended after 0..n items, drained "
+        "later or closed early, every answer judged like a first answer; non-trivial = the constraint has a choice group or a conditional and "
+        "at least two variables")
 
 FLAGS = ["a", "b", "c", "d", "e"]
 
@@ -60,11 +65,23 @@ def run(ctx):
     def parse(s):
         return DepSet.parse(s, values.ContainmentMatch, operators=ops, element_func=ebase._mk_required_use_node, attr="REQUIRED_USE")
 
+    def query(d, iuse, ft, ff, pt, shape=0):
+        """the real call; the forced / preferred collections are handed over as different container types"""
+        mk = (set, frozenset, tuple, list)[shape % 4]
+        return required_use.find_constraint_satisfaction(d, set(iuse), mk(ft), mk(ff), mk(pt) if shape % 3 else set(pt))
+
+    canon = lambda a: tuple(sorted(a.items()))
+
     cases = []
+    replay_sessions = []
     if ctx.replay_cases:
-        cases += [(c["required_use"], c["iuse"], c["force_true"], c["force_false"], c["prefer_true"]) for c in ctx.replay_cases if "required_use" in c]
+        cases += [(c["required_use"], c["iuse"], c["force_true"], c["force_false"], c["prefer_true"]) for c in ctx.replay_cases
+                  if "required_use" in c and "steps" not in c]
+        replay_sessions = [c for c in ctx.replay_cases if "steps" in c]
+        for c in replay_sessions:
+            cases += [(c["required_use"], q["iuse"], q["force_true"], q["force_false"], q["prefer_true"]) for q in c["queries"]]
     strings = [c.replace("x", "e") for c in CORPUS]
-    for _ in range(ctx.n(500, 8000)):
+    for _ in range(ctx.n(600, 8000)):
         flags = FLAGS[: rng.choice([2, 3, 3, 4, 5])]
         strings.append(" ".join(gen_ru(rng, flags, rng.choice([1, 2, 2, 3])) for _ in range(rng.choice([1, 1, 2, 3]))))
     for s in strings:
@@ -79,11 +96,13 @@ def run(ctx):
         else:
             iuses = [universe, mentioned] + [[f for f in universe if rng.random() < 0.7] for _ in range(2)]
         for iuse in iuses:
-            rest = list(iuse)
+            # forced flags come from the profile (use.force / use.mask): they are not limited to the package's IUSE.
+            # Draw them from everything in sight, from none up to all flags (then whole rules are pinned).
+            rest = list(iuse) if rng.random() < 0.4 else sorted(set(universe) | {"y"})
             rng.shuffle(rest)
-            k = rng.choice([0, 0, 1, 2])
-            ft = rest[:k] if rng.random() < 0.5 else []
-            ff = [f for f in rest[k:k + rng.choice([0, 0, 1])]]
+            k = rng.choice([0, 0, 1, 1, 2, 2, 3, len(rest)])
+            ft = rest[:k] if rng.random() < 0.6 else []
+            ff = [f for f in rest[k:k + rng.choice([0, 0, 0, 1, 1, 2, len(rest)])]]
             pt = [f for f in universe if rng.random() < 0.3]
             cases.append((s, iuse, ft, ff, pt))
 
@@ -101,7 +120,7 @@ def run(ctx):
             ctx.mismatch(case, "driver rejected the request")
             continue
         try:
-            sols = list(required_use.find_constraint_satisfaction(d, set(iuse), set(ft), set(ff), set(pt)))
+            sols = list(query(d, iuse, ft, ff, pt, shape=len(meta) + len(ereqs)))
         except Exception as e:
             ctx.violation(case, f"find_constraint_satisfaction raised {type(e).__name__}: {e}")
             continue
@@ -110,7 +129,7 @@ def run(ctx):
         ctx.case(case, nontriv, key=repr(case))
         ctx.count("variables_%d" % min(len(variables), 6))
         ctx.count("solutions_%s" % (len(sols) if len(sols) < 5 else "5+"))
-        canon = lambda a: tuple(sorted(a.items()))
+        ctx.count("forced_outside_iuse_%s" % bool([f for f in ft + ff if f not in iuse]))
         got = sorted(canon(a) for a in sols)
         want = sorted(canon(a) for a in rep["solutions"])
         if got != want:
@@ -133,9 +152,15 @@ def run(ctx):
         for r in range(len(free) + 1):
             for on in itertools.combinations(free, r):
                 admissible.append(sorted(set(on) | {f for f in ft if f in iuse}))
+        try:
+            pinned = [v for _c, v in required_use._compiled_constraints(d) if all(f not in iuse or f in ft or f in ff for f in v)]
+            ctx.count("rules_all_pinned_%s" % min(len(pinned), 2))
+        except Exception:
+            pass
         ereqs.append({"cmd": "c10.eval", "deps": j, "ons": admissible})
-        emeta.append((case, variables, admissible, sols, rep))
-    for (case, variables, admissible, sols, rep), out in zip(emeta, ctx.model(ereqs)):
+        emeta.append((case, variables, admissible, sols, rep, d))
+    by_string = {}
+    for (case, variables, admissible, sols, rep, d), out in zip(emeta, ctx.model(ereqs)):
         produced = {tuple(sorted(f for f, v in a.items() if v)) for a in sols}
         guard = rep["guard"]
         for on, (code_ok, spec_ok) in zip(admissible, out):
@@ -153,13 +178,132 @@ def run(ctx):
             first = {f for f, v in sols[0].items() if v}
             if first != pref:
                 ctx.violation(case, f"the preferred assignment {sorted(pref)} satisfies the constraint but the first solution is {sorted(first)}")
+        by_string.setdefault(case["required_use"], []).append(
+            {"case": case, "d": d, "first_answer": sorted(canon(a) for a in sols),
+             "preferred": canon(rep["preferred"]) if (idx is not None and out[idx][0]) else None})
+
+    # ------------------------------------------------------------------ sessions: the property holds for *every* call, whatever
+    # was asked before in the same process and whatever became of the earlier result iterators.  Queries on one parsed
+    # REQUIRED_USE (identical ones on purpose) are started, advanced by single steps, drained, closed, in random interleavings;
+    # every answer is judged like a first answer: the same solutions, each once, the preferred assignment first when it satisfies.
+    def run_session(string, queries, steps):
+        """steps: ["start", query index] | ["next", handle] | ["drain", handle] | ["close", handle]; -> list of complaints"""
+        handles, log, complaints = [], [], []
+
+        def describe():
+            return {"required_use": string, "queries": [q["case"] for q in queries], "steps": steps[:len(log)]}
+
+        def take(h, n):
+            it = h["it"]
+            for _ in range(n) if n is not None else itertools.count():
+                try:
+                    a = next(it)
+                except StopIteration:
+                    h["done"] = True
+                    return
+                h["got"].append(canon(a))
+
+        def judge(h, complete):
+            q = queries[h["q"]]
+            got, want = h["got"], q["first_answer"]
+            label = f"query #{h['q']} ({q['case']}) started at step {h['at']}"
+            if len(set(got)) != len(got):
+                complaints.append(f"{label}: a solution was produced more than once: {got}")
+            extra = [a for a in got if a not in want]
+            if extra:
+                complaints.append(f"{label}: produced {dict(extra[0])}, which the same query asked on its own does not produce")
+            if complete and not extra and sorted(set(got)) != want:
+                missing = [a for a in want if a not in got]
+                complaints.append(f"{label}: {len(missing)} of its {len(want)} solutions never produced, e.g. {dict(missing[0])}")
+            if q["preferred"] is not None and got and got[0] != q["preferred"]:
+                complaints.append(f"{label}: the preferred assignment {dict(q['preferred'])} satisfies, but the first one produced is {dict(got[0])}")
+
+        for step in steps:
+            op, arg = step
+            log.append(step)
+            try:
+                if op == "start":
+                    q = queries[arg]["case"]
+                    it = query(queries[arg]["d"], q["iuse"], q["force_true"], q["force_false"], q["prefer_true"], shape=len(handles))
+                    handles.append({"q": arg, "it": it, "got": [], "done": False, "closed": False, "at": len(log) - 1})
+                    continue
+                h = handles[arg]
+                if h["closed"]:
+                    continue
+                if op == "next":
+                    take(h, 1)
+                elif op == "drain":
+                    take(h, None)
+                elif op == "close":
+                    close = getattr(h["it"], "close", None)
+                    if close is not None:
+                        close()
+                    h["closed"] = True
+                    judge(h, False)
+                if h["done"] and not h["closed"]:
+                    h["closed"] = True
+                    judge(h, True)
+            except Exception as e:
+                complaints.append(f"step {len(log) - 1} {step} raised {type(e).__name__}: {e}")
+                break
+        return describe(), complaints
+
+    def gen_steps(nq):
+        steps, started, live = [], [], []
+        for _ in range(rng.randint(3, 10)):
+            r = rng.random()
+            if not live or r < 0.4:
+                # repeat an earlier query more often than not
+                qi = rng.choice(started) if started and rng.random() < 0.65 else rng.randrange(nq)
+                started.append(qi)
+                live.append(len(started) - 1)
+                steps.append(["start", qi])
+                if rng.random() < 0.5:      # the usual caller: take everything at once
+                    steps.append(["drain", live.pop()])
+            elif r < 0.7:
+                steps.append(["next", rng.choice(live)])
+            elif r < 0.9:
+                steps.append(["drain", live.pop(rng.randrange(len(live)))])
+            else:
+                steps.append(["close", live.pop(rng.randrange(len(live)))])
+        while live:
+            steps.append([rng.choice(["drain", "drain", "drain", "close"]), live.pop(rng.randrange(len(live)))])
+        return steps
+
+    sessions = []
+    for c in replay_sessions:
+        qs = [q for q in by_string.get(c["required_use"], []) if q["case"] in c["queries"]]
+        if len(qs) >= len(c["queries"]):
+            qs = [next(q for q in qs if q["case"] == want) for want in c["queries"]]
+            sessions.append((c["required_use"], qs, c["steps"]))
+    for string, qs in by_string.items():
+        if not ctx.quick() or string in strings[:len(CORPUS)] or rng.random() < 0.7:
+            pick = rng.sample(qs, min(len(qs), rng.choice([1, 1, 2, 3])))
+            # the plain pattern first: ask, take everything, ask again; then ask while the first answer is still pending
+            sessions.append((string, pick, [["start", 0], ["drain", 0], ["start", 0], ["next", 1], ["start", 0], ["drain", 2], ["drain", 1]]))
+            sessions.append((string, pick, gen_steps(len(pick))))
+    nsess = 0
+    for string, qs, steps in sessions:
+        desc, complaints = run_session(string, qs, steps)
+        nsess += 1
+        ctx.evaluations += sum(1 for st in steps if st[0] == "start")
+        nontriv = any(tok in string for tok in ("||", "^^", "??", "?")) and any(len(q["first_answer"]) >= 2 for q in qs)
+        ctx.case(desc, nontriv, key="S|" + repr(desc))
+        ctx.count("session_steps_%s" % min(len(steps), 12))
+        for msg in complaints[:1]:
+            ctx.violation(desc, "in a sequence of queries in one process: " + msg)
+    ctx.extra["sessions"] = nsess
 
 
 LEVEL_TEXT = ("Kernel-checked Lean 4 theorems about a model of required_use.py: splitting into several constraints preserves the conjunction; the "
               "compiled constraints equal the REQUIRED_USE semantics pkgcore itself checks with (evaluate, then match) on every structure without a "
               "conditional below ||/^^/?? (proved counterexample outside); every assignment of the domains built by find_constraint_satisfaction "
-              "keeps forced-on flags on and forced-off / outside-IUSE flags off; under the recorded solver contract the solutions are sound, complete, "
+              "keeps forced-on flags on and forced-off / outside-IUSE flags off, and forced flags outside IUSE change nothing; under the recorded solver contract the solutions are sound, complete, "
               "duplicate-free and the preferred assignment comes first when it satisfies. Tied to the code by a differential run that compares "
-              "the real solver's solutions (multiset + first) with the model and with a brute-force enumeration judged by the specification.")
+              "the real solver's solutions (multiset + first) with the model and with a brute-force enumeration judged by the specification, and "
+              "that re-asks the same and related queries in one process (after full enumerations, with earlier result iterators suspended, "
+              "drained later or closed) demanding the same answer every time.")
 LEVEL_NOTE = ("Partial: snakeoil's backtracking solver is a contracted parameter, not a verified model (checked per run against the real solver). "
+              "The model is a pure function of the query; that the real function is one too (no state shared between calls) is checked by the "
+              "session runs only. "
               "Open finding: an unmet conditional directly inside ||/^^/?? is compiled to 'true' while pkgcore's own checker and Portage drop it.")
